@@ -1,5 +1,6 @@
 (* C12 — Shaped output geometry is self-consistent.  Property theorems only. *)
 From TV Require Import Lib.GoNum Lib.Res Model.Output Spec.Geometry Proofs.Output.
+From TV Require Import Model.ShapeConv Spec.ShapeConv Proofs.ShapeConv.
 
 (* the run advance is the sum of the glyph advances along the run's axis after each of the methods that maintain it,
    for every run (any glyph list, any direction bits) *)
@@ -91,3 +92,124 @@ Example geometry_example :
   /\ forallb extents_oriented (o_glyphs o) = true /\ cross_zero o = true /\ is_vertical (o_dir o) = false
   /\ o_adv (recalculate_all (sideways o)) = -26 /\ o_gbounds (recalculate_all (sideways o)) = mkBounds 20 0 0.
 Proof. cbv zeta. split; [eexists; vm_compute; repeat split; reflexivity|vm_compute; repeat split; reflexivity]. Qed.
+
+(* ==== the conversion part of HarfbuzzShaper.Shape (Model/ShapeConv.v) ==========================================
+   eng   : font scale -> harfbuzz direction -> buffer contents (Info/Pos) after Buffer.Shape      (the engine)
+   ext   : font scale -> glyph id -> harfbuzz.Font.GlyphExtents                                   (None = not ok)
+   fext  : font scale -> harfbuzz direction -> harfbuzz.Font.ExtentsForDirection (float32 fields)
+   are universally quantified: the theorems hold for every engine result, every extents function, every font. *)
+
+(* The fixed point conversions of Shape.
+   (1,2) `fixed.I(int(v)) >> scaleShift` returns v exactly when -2^25 <= v < 2^25, and for no other v (outside, the
+         int32 behind fixed.Int26_6 wraps);
+   (3)   for 0 <= Size <= 2^31-64 (26.6) the font scale is the size rounded UP to whole pixels, times 64: the engine
+         works in 1/64 of the pixel grid of ceil(Size), so a fractional size is shaped like the next whole pixel size;
+   (4)   whole pixel sizes below 2^25 px are taken over exactly;
+   (5)   hence every engine value smaller in magnitude than n em (n * font scale) converts exactly as long as
+         n * ceil(Size px) <= 2^19: up to 128 em at Size <= 4096 px, 8 em at 65536 px. *)
+Theorem scale_roundtrip :
+  (forall x, - 2 ^ 25 <= x < 2 ^ 25 -> fix_conv x = x)
+  /\ (forall x, fix_conv x = x -> - 2 ^ 25 <= x < 2 ^ 25)
+  /\ (forall size, 0 <= size <= 2 ^ 31 - 64 ->
+        font_scale size = 64 * ((size + 63) / 64) /\ size <= font_scale size < size + 64)
+  /\ (forall px, 0 <= px < 2 ^ 25 -> font_scale (64 * px) = 64 * px)
+  /\ (forall size n x, 0 <= size <= 2 ^ 31 - 64 -> 0 <= n -> n * ((size + 63) / 64) <= 2 ^ 19 ->
+        Z.abs x < n * font_scale size -> fix_conv x = x).
+Proof. exact scale_roundtrip_lemma. Qed.
+Print Assumptions scale_roundtrip.
+
+(* For every engine, extents function, font, size, direction byte and run bounds: the Output of Shape satisfies
+   Advance = sum of its glyph advances along the run's axis, and this sum is the sum over the engine's glyphs (those
+   the font has extents for; Shape zeroes the others) of the converted axis advance: x_advance for horizontal runs,
+   y_advance for upright vertical runs, MINUS x_advance for sideways runs (the engine was asked horizontally, at
+   scale font_scale Size and direction co_hbdir). *)
+Theorem shape_conv_advance_is_axis_sum : forall eng ext fext size dir run_start run_end,
+  let r := shape_conv eng ext fext size dir run_start run_end in
+  advance_ok (co_out r) = true
+  /\ o_adv (co_out r) = hb_axis_sum ext (co_scale r) dir (eng (co_scale r) (co_hbdir r))
+  /\ co_scale r = font_scale size
+  /\ co_hbdir r = harfbuzz_dir (if is_sideways dir then horizontal_of dir else dir).
+Proof.
+  intros eng ext fext size dir rs re. cbv zeta.
+  pose proof (conv_advance_lemma eng ext fext size dir rs re) as [A B].
+  pose proof (conv_asks eng ext fext size dir rs re) as [C [D _]]. repeat split; assumption.
+Qed.
+Print Assumptions shape_conv_advance_is_axis_sum.
+
+(* If the engine returns zero cross-axis advances for the axis it is asked (y_advance = 0 when asked horizontally:
+   horizontal and sideways runs; x_advance = 0 when asked vertically: upright vertical runs), every glyph of the Output
+   has a zero cross-axis advance.  Every engine result (all glyph lists). *)
+Theorem shape_conv_cross_axis_zero : forall eng ext fext size dir run_start run_end,
+  let r := shape_conv eng ext fext size dir run_start run_end in
+  hb_cross_zero (engine_vertical dir) (eng (co_scale r) (co_hbdir r)) = true ->
+  cross_zero (co_out r) = true.
+Proof. exact conv_cross_lemma. Qed.
+Print Assumptions shape_conv_cross_axis_zero.
+
+(* The glue commutes with rotation: for a sideways direction byte, the Output is the rotation by 90 degrees clockwise
+   (Spec.sideways_ok: every ink box corner and advance vector mapped by (x, y) -> (y, -x), cluster data kept, Advance
+   negated, GlyphBounds carried over, direction = horizontal direction | vertical | sideways) of the Output computed for
+   the same run treated as horizontal (vertical bits cleared) — the engine being asked exactly the same question
+   (same scale, same harfbuzz direction), glyph ids, masks, Runes and Size identical, and LineBounds read from the
+   font's vertical resp. horizontal extents.  Hypothesis: the engine's horizontal result has y_advance = 0. *)
+Theorem shape_conv_sideways_is_rotation : forall eng ext fext size dir run_start run_end,
+  is_sideways dir = true ->
+  let v := shape_conv eng ext fext size dir run_start run_end in
+  let h := shape_conv eng ext fext size (horizontal_of dir) run_start run_end in
+  hb_cross_zero false (eng (co_scale h) (co_hbdir h)) = true ->
+  sideways_ok (co_out h) (co_out v) = true
+  /\ co_hbdir v = co_hbdir h /\ co_scale v = co_scale h /\ co_ids v = co_ids h
+  /\ co_off v = co_off h /\ co_count v = co_count h /\ co_size v = co_size h
+  /\ co_line v = line_of (fext (co_scale v) (harfbuzz_dir dir))
+  /\ co_line h = line_of (fext (co_scale h) (harfbuzz_dir (horizontal_of dir))).
+Proof. exact conv_sideways_lemma. Qed.
+Print Assumptions shape_conv_sideways_is_rotation.
+
+(* LineBounds are the font's extents for the direction of the run as requested (vertical extents for upright AND
+   sideways vertical runs, although a sideways run is shaped horizontally), read at the scale co_scale r = font_scale
+   Size that the engine and the glyph extents use, truncated towards zero (int(float32)) and converted by the same
+   `fixed.I(..) >> scaleShift` as the glyph advances; exactly the truncated extents when these lie in [-2^25, 2^25). *)
+Theorem shape_conv_line_bounds : forall eng ext fext size dir run_start run_end,
+  let r := shape_conv eng ext fext size dir run_start run_end in
+  let fe := fext (co_scale r) (harfbuzz_dir dir) in
+  co_line r = line_of fe
+  /\ co_scale r = font_scale size
+  /\ harfbuzz_dir dir = (if is_vertical dir then (if toward dir then 7 else 6) else (if toward dir then 5 else 4))
+  /\ harfbuzz_dir (o_dir (co_out r)) = harfbuzz_dir dir
+  /\ (exact_range (f_trunc (fe_asc fe)) -> exact_range (f_trunc (fe_desc fe)) -> exact_range (f_trunc (fe_gap fe)) ->
+      co_line r = mkBounds (f_trunc (fe_asc fe)) (f_trunc (fe_desc fe)) (f_trunc (fe_gap fe))).
+Proof.
+  intros eng ext fext size dir rs re. cbv zeta.
+  pose proof (conv_line_lemma eng ext fext size dir rs re) as [A [B C]]. cbv zeta in A.
+  pose proof (conv_asks eng ext fext size dir rs re) as [D _].
+  repeat split; try assumption. intros X Y Z. rewrite A. apply line_of_exact; assumption.
+Qed.
+Print Assumptions shape_conv_line_bounds.
+
+(* ---- non-vacuity ---------------------------------------------------------------------------- *)
+(* the conversion wraps at 2^25; fractional sizes are rounded up; Size = 2^31-63 wraps to a negative scale *)
+Example scale_example :
+  fix_conv (2 ^ 25 - 1) = 2 ^ 25 - 1 /\ fix_conv (- 2 ^ 25) = - 2 ^ 25 /\ fix_conv (2 ^ 25) = - 2 ^ 25
+  /\ font_scale (12 * 64 + 1) = 13 * 64 /\ font_scale (4096 * 64) = 2 ^ 18 /\ font_scale (2 ^ 31 - 63) = - 2 ^ 31.
+Proof. vm_compute. repeat split; reflexivity. Qed.
+
+(* an engine result of three glyphs (the second has no extents in the font) at 16 px, shaped LTR, sideways TTB and
+   upright TTB (there the engine answers with y advances) *)
+Definition ex_eng (scale hbdir : Z) : list hbglyph :=
+  if hbdir <? 6 then [mkHB 5 0 0 600 0 0 0; mkHB 99 0 1 500 0 0 0; mkHB 7 0 2 300 0 10 (-20)]
+  else [mkHB 5 0 0 0 (-1100) (-300) 0; mkHB 99 0 1 0 (-1000) 0 0; mkHB 7 0 2 0 (-900) (-150) 0].
+Definition ex_ext (scale gid : Z) : option hbext := if gid =? 99 then None else Some (mkExt 20 700 500 (-710)).
+Definition ex_fext (scale hbdir : Z) : fextents :=
+  if hbdir <? 6 then mkFE (mkF 950 0) (mkF (-250) 0) (mkF 0 0) else mkFE (mkF 1 9) (mkF (-1) 9) (mkF 0 0).
+Example conv_example :
+  let h := shape_conv ex_eng ex_ext ex_fext 1024 0 0 3 in
+  let v := shape_conv ex_eng ex_ext ex_fext 1024 14 0 3 in
+  let u := shape_conv ex_eng ex_ext ex_fext 1024 6 0 3 in
+  is_sideways 14 = true /\ horizontal_of 14 = 0
+  /\ hb_cross_zero false (ex_eng 1024 4) = true /\ hb_cross_zero (engine_vertical 6) (ex_eng 1024 6) = true
+  /\ co_scale h = 1024 /\ o_adv (co_out h) = 900 /\ o_adv (co_out v) = -900 /\ o_adv (co_out u) = -2000
+  /\ map g_xadv (o_glyphs (co_out h)) = [600; 0; 300] /\ map g_yadv (o_glyphs (co_out v)) = [-600; 0; -300]
+  /\ map g_yoff (o_glyphs (co_out v)) = [-520; 0; -530] /\ map g_xoff (o_glyphs (co_out v)) = [0; 0; -20]
+  /\ co_line h = mkBounds 950 (-250) 0 /\ co_line v = mkBounds 512 (-512) 0 /\ co_line u = mkBounds 512 (-512) 0
+  /\ o_gbounds (co_out v) = o_gbounds (co_out h) /\ o_dir (co_out v) = 14 /\ co_hbdir v = 4 /\ co_hbdir u = 6.
+Proof. vm_compute. repeat split; reflexivity. Qed.
